@@ -216,6 +216,23 @@ def observability_family(tier="quick"):
             out.append(sc)
     return out
 
+def store_config_family(tier="quick"):
+    """Representative executions over the Redis-backed stores, on one engine instance and on two instances sharing them (C11:
+    'reading through any engine instance that shares the store gives the same answers'; the records then live in Redis hashes, the
+    histories in Redis lists, and the second instance reads what the first one wrote)."""
+    out = []
+    pool = {s["name"]: s for s in handler_coverage_corpus() + seq_family(tier) + fanout_fail_family(tier) + observability_family(tier)}
+    picks = ["task-next", "task-error-caught", "parallel-next", "map-maxconc", "wait-next", "seq-two-exec-one-machine", "parfail-A-task-B1-catch", "name-reused-echo-standard", "input-empty-array-echo-standard"]
+    if tier == "thorough":
+        picks += ["task-retry-then-ok", "task-timeout", "choice-default", "fail", "map-item-error", "nested-par-in-map", "seq-exec-timeout-in-task", "parfail-A-task-Bwait-none", "express-task-error", "input-zero-fail-standard"]
+    for nm in picks:
+        for n in (1, 2):
+            s = copy.deepcopy(pool[nm])
+            s["name"] = "redis%d+%s" % (n, nm); s["family"] = "redis%d+%s" % (n, pool[nm]["family"])
+            s["store"] = "redis"; s["instances"] = n
+            out.append(s)
+    return out
+
 def history_api_family(tier="quick"):
     """GetExecutionHistory read through the real REST front end at every point of an execution, forwards and with reverseOrder
     (C09: 'reverseOrder returns exactly the reverse list'; a read must not disturb what later reads and later events see)."""
@@ -310,6 +327,15 @@ def seq_family(tier="quick"):
     sc["starts"] = []
     sc["script"] = [{"op": "raw", "body": '{"data": {"k": 1}, "context": {"StateMachine": {"Id": "' + sm_arn("m") + '"}}}'}]
     out.append(sc)
+    if tier == "thorough":
+        # two and three concurrent executions of machines that block (their events interleave on one instance queue and one reply queue)
+        out.append(multi("seq-two-chains", {"m": {"definition": d1}},
+                         [{"machine": "m", "name": "e1", "input": {"x": 0}}, {"machine": "m", "name": "e2", "input": {"x": 1}}], workers={"f1": {"*": OK({"r": 1})}}))
+        out.append(multi("seq-retry-beside-timeout", {"m": {"definition": chain(("T", Task("f1", Retry=[{"ErrorEquals": ["E1"], "IntervalSeconds": 1, "MaxAttempts": 2}])), Z)},
+                                                        "n": {"definition": chain(("T", Task("f2", TimeoutSeconds=2, Catch=CATCH_ALL)), Z)}},
+                         [{"machine": "m", "name": "e1", "input": {"k": 1}}, {"machine": "n", "name": "e2", "input": {"k": 2}}],
+                         workers={"f1": {"*": [["err", "E1", "x"], ["ok", 3]]}, "f2": {"*": [["delay", ["ok", "late"]]]}}))
+        out.append(multi("seq-three-tasks", {"m": {"definition": dt}}, [{"machine": "m", "name": "e%d" % i, "input": {"k": i}} for i in (1, 2, 3)], workers={"f1": {"*": [["echo"]]}}))
     # async child launch
     child = chain(("CA", Task("f2")), ("CZ", Pass()))
     parent = chain(("L", {"Type": "Task", "Resource": "arn:aws:states:local::states:startExecution",
@@ -468,6 +494,25 @@ def fanout_fail_family(tier="quick"):
             d = chain(("M", st), Z)
             w = {"fi": {"2": ERR(), "*": [["echo"]]}}
             out.append(scenario("mapfail-item2-mc%d-%s" % (mc, hname), d, workers=w, input=[1, 2, 3], family="mapfail-mc%d-%s" % (mc, hname)))
+    if tier == "thorough":
+        for hname, h in handlers.items():
+            # three branches: the failure meets one sibling blocked in a Task and one in a Wait; two different failures and a bystander branch
+            d = chain(("P", Parallel([_branch("A", 1), _branch("B", 1), _branch("C", 1, "wait")], **h)), Z)
+            out.append(scenario("parfail3-A-task-Btask-Cwait-%s" % hname, d, workers=_okworkers(d, {"f_A1": {"*": ERR()}}), family="parfail3-task-wait-siblings-%s" % hname))
+            d = chain(("P", Parallel([_branch("A", 1), _branch("B", 1), _branch("C", 2)], **h)), Z)
+            sc = scenario("parfail3-both-Ctask-%s" % hname, d, workers=_okworkers(d, {"f_A1": {"*": ERR("E1")}, "f_B1": {"*": ERR("E2")}}), family="parfail3-both-%s" % hname)
+            sc["expect_any_error"] = ["E1", "E2"]
+            out.append(sc)
+            # Map: every position of the failing item, with a MaxConcurrency window of 2 over 3 items
+            it3 = chain(("I", Task("fi")))
+            for pos in (1, 2, 3):
+                d = chain(("M", Map(it3, MaxConcurrency=2, **h)), Z)
+                out.append(scenario("mapfail3-item%d-mc2-%s" % (pos, hname), d, workers={"fi": {str(pos): ERR(), "*": [["echo"]]}}, input=[1, 2, 3], family="mapfail3-mc2-%s" % hname))
+            # the failing branch is itself a fan-out (Map in Parallel / Parallel in Map) and the handler sits on the outer state
+            d = chain(("P", Parallel([chain(("M", Map(chain(("I", Task("fi"))), ItemsPath="$.items"))), _branch("B", 1)], **h)), Z)
+            out.append(scenario("parfail-innermap-item-%s" % hname, d, workers=_okworkers(d, {"fi": {"2": ERR(), "*": [["echo"]]}}), input={"items": [1, 2]}, family="parfail-inner-map-fails-%s" % hname))
+            d = chain(("M", Map(chain(("Q", Parallel([_branch("A", 1), _branch("B", 1, "wait")]))), **h)), Z)
+            out.append(scenario("mapfail-innerpar-%s" % hname, d, workers={"f_A1": {"1": ERR(), "*": [["echo"]]}}, input=[1, 2], family="mapfail-inner-par-fails-%s" % hname))
     # nested: Parallel[Task A fails || Map(Task)] and Parallel in Parallel
     it = chain(("I", Task("fi")))
     d = chain(("P", Parallel([_branch("A", 1), chain(("M", Map(it, ItemsPath="$.items")))])), Z)
@@ -535,6 +580,16 @@ def child_family(tier="quick"):
     add("child-sync-in-map", chain(("M", Map(chain(("L", dict(launch("sync"), Parameters={"StateMachineArn": sm_arn("c"), "Input.$": "$", "Name.$": "$.nm"}))), ItemsPath="$.items")), Z), child_ok, form="sync-map",
         **{})
     out[-1]["starts"][0]["input"] = {"items": [{"nm": "c1"}, {"nm": "c2"}]}
+    if tier == "thorough":
+        # two synchronous children of one Map, one of which fails; a retried launch; a child launched by a child
+        add("child-sync-in-map-one-fails", chain(("M", Map(chain(("L", dict(launch("sync"), Parameters={"StateMachineArn": sm_arn("c"), "Input.$": "$", "Name.$": "$.nm"}))), ItemsPath="$.items")), Z),
+            chain(("CC", Choice([{"Variable": "$.bad", "BooleanEquals": True, "Next": "CF"}], default="CZ")), ("CF", Fail("E.child", "child failed")), ("CZ", Pass(Result="done", ResultPath="$.z", End=True))), form="sync-map")
+        out[-1]["starts"][0]["input"] = {"items": [{"nm": "c1", "bad": False}, {"nm": "c2", "bad": True}]}
+        # (no Parameters.Name: a retried launch with a fixed name would start the same execution name twice, which is the machine's own doing)
+        add("child-sync-retried-launch", chain(("L", dict(launch("sync", Retry=[{"ErrorEquals": ["States.TaskFailed"], "IntervalSeconds": 1, "MaxAttempts": 1}]),
+                                                          Parameters={"StateMachineArn": sm_arn("c"), "Input": {"from": "parent", "n": 1}})), Z), child_fail, form="sync-unnamed")
+        add("child-sync-two-parents", chain(("L", dict(launch("sync"), Parameters={"StateMachineArn": sm_arn("c"), "Input": {"from": "parent"}, "Name.$": "$.cn"})), Z), child_ok, form="sync-map")
+        out[-1]["starts"] = [{"machine": "m", "name": "p1", "input": {"cn": "c1"}}, {"machine": "m", "name": "p2", "input": {"cn": "c2"}}]
     # task-token callbacks on an rpcmessage task
     tok = {"Type": "Task", "Resource": "arn:aws:states:local::rpcmessage:invoke.waitForTaskToken", "TimeoutSeconds": 5,
            "Parameters": {"FunctionName": fn_arn("ft"), "Payload": {"token.$": "$$.Task.Token", "x": 1}}, "ResultPath": "$.cb"}
